@@ -48,7 +48,7 @@ CogShock == {"Cog19", "Cog20", "Cog21"}
 RiemannFams == {"RiemannIG", "RiemannGen"}
 (* families without a 1-D hydrodynamic scan row (burn times, heat conduction, elasticity): relation / field laws only *)
 BurnFams  == {"Kenamond1", "Kenamond2", "Kenamond3", "DSDcyl"}
-PlainFams == {"Rod1D", "Hutchens1"}
+PlainFams == {"Rod1D", "Hutchens1", "RodNH", "Sandwich", "Rectangle", "Hutchens2"}
 G_Sedov == {<<"interior", "shock", "ambient">>, <<"vacuum", "cont", "interior">>}
 G_Piston == {<<"plastic", "shock", "elastic">>, <<"elastic", "shock", "rest">>}
 (* escape of HE products: product regions are separated by characteristics (continuous); the only jump is the  *)
@@ -71,7 +71,7 @@ Cat == [f \in Families |->
     [] f \in BurnFams   -> RowF("none", "none", "closed", {"detonator", "he"}, G_Smooth, FALSE, {})
     [] f = "RiemannIG"  -> RowF("gamma2", "euler", "closed", R_Riemann, G_Riemann, FALSE, {"R"})
     [] f = "RiemannGen" -> RowF("gamma2", "euler", "table",  R_Riemann, G_Riemann, FALSE, {"R"})
-    [] f \in PlainFams  -> Row("none",  "none",    IF f = "Mader" THEN "table" ELSE IF f \in {"Rod1D", "Hutchens1"} THEN "series" ELSE "closed", {"all"}, G_Smooth, FALSE)
+    [] f \in PlainFams  -> Row("none",  "none",    IF f = "Mader" THEN "table" ELSE IF f \in {"Rod1D", "Hutchens1", "RodNH", "Sandwich", "Rectangle", "Hutchens2"} THEN "series" ELSE "closed", {"all"}, G_Smooth, FALSE)
     [] f \in CogNone    -> Row("cog",   "cognone", "closed", {"all"}, G_Smooth, FALSE)
     [] f \in CogDiv     -> Row("cog",   "cogdiv",  "closed", {"all"}, G_Smooth, FALSE)
     [] f \in CogFull    -> Row("cog",   "cogfull", "closed", {"all"}, G_Smooth, FALSE)
@@ -107,8 +107,8 @@ FieldLaws(f) ==
   CASE f \in BurnFams -> [eq |-> {"det-time", "eikonal"}, ineq |-> {"det-not-late", "causal", "lipschitz"}]
     [] f = "Blake"    -> [eq |-> {"wave", "strain_rr=du/dr", "strain_qq=u/r", "strain_vol", "curr_posn", "density", "hooke_rr", "hooke_qq",
                                   "pressure", "dev_rr", "dev_qq", "stress_diff", "cavity", "zero-ahead"}, ineq |-> {}]
-    [] f \in {"Rod1D", "Hutchens1", "Hutchens2", "Rectangle", "CylSandwich", "PlanarSandwich"}
-                      -> [eq |-> {"heat", "bc-left", "bc-right", "initial", "steady", "regular"}, ineq |-> {}]
+    [] f \in {"Rod1D", "RodNH", "Sandwich", "Hutchens1", "Hutchens2", "Rectangle", "CylSandwich"}
+                      -> [eq |-> {"heat", "bc-left", "bc-right", "bc-bottom", "bc-top", "bc-surface", "initial", "steady", "regular"}, ineq |-> {}]
     [] f = "SuOlson"  -> [eq |-> {"rad", "mat", "marshak"}, ineq |-> {"v<=u", "u<=1", "v>=0", "decay", "mono-x", "mono-t"}]
     [] OTHER -> [eq |-> {}, ineq |-> {}]
 
